@@ -151,6 +151,7 @@ def judge(case, base, o):
 
     if "crash" in o:
         return [{"sig": "harness-crash", "what": o["crash"], "case": case}]
+    o = P.settle(case, o, run_builtin_case)
     rbad, _f4 = P.returns_ok(o)
     diffs = P.compare(base, o)
     if not rbad and not diffs:
@@ -190,6 +191,7 @@ def run_builtin(ctx):
         obs = pool.map(_worker, cases, chunksize=4)
     violations, counts, outside = [], {}, 0
     landed = 0
+    seen = []
     for case, o in zip(cases, obs):
         counts["builtin:" + case["builtin"]] = counts.get("builtin:" + case["builtin"], 0) + 1
         for v in judge(case, bases[case["builtin"]], o):
@@ -197,8 +199,9 @@ def run_builtin(ctx):
                 outside += 1
             else:
                 violations.append(v)
-        if "crash" not in o and (len(o["returns"]) > 1 or any(m[0] == "_start_suspender" for m in o["msgs"])):
-            landed += 1
+        took = "crash" not in o and (len(o["returns"]) > 1 or any(m[0] == "_start_suspender" for m in o["msgs"]))
+        landed += took
+        seen.append((case, bool(took)))
     counts["builtin:interruption-took-effect"] = landed
     counts["builtin:outside-hypothesis"] = outside
     from props import C03 as P
@@ -206,7 +209,7 @@ def run_builtin(ctx):
     summary = {name: {"arrivals": len(b["arrivals"]), "events": sum(len(s) for r in P.data_view(b) for s in r["streams"].values())} for name, b in bases.items()}
     i = len(cases) // 2
     sample = {"case": cases[i], "returns": obs[i].get("returns"), "data": P.data_view(obs[i]) if "crash" not in obs[i] else None, "label": "oracle only: real built-in plan, not in the Lean model"}
-    return {"violations": violations, "counts": counts, "runs": len(cases), "summary": summary, "sample": sample}
+    return {"violations": violations, "counts": counts, "runs": len(cases), "seen": seen, "summary": summary, "sample": sample}
 
 
 def replay_case(case):
